@@ -34,6 +34,8 @@ def deck_features(deck):
         feats.add('macrobody')
     if any(c.get('kw_front') or c.get('kw_back') for c in deck['cells']):
         feats.add('irrelevant_kw')
+    if deck.get('cardorder'):
+        feats.add('card_order')
     return sorted(feats)
 
 
@@ -76,6 +78,12 @@ def run(chk, decks, clauses, seed, opts_of=None, npts=96):
             d = numberings.apply(d, family[i])
         elif i in set(renumbered):
             d = adeck.renumber(d, *adeck.RENUMBERINGS[1 + (i // 3) % 3])
+        if i % 5 == 0 and not d.get('impcards') and not any(c.get('like') or c.get('impsrc') == 'data' for c in d['cells']):
+            d['cells'] = list(d['cells'])          # the cards of a block in another order
+            d['surfs'] = list(d['surfs'])
+            rng.shuffle(d['cells'])
+            rng.shuffle(d['surfs'])
+            d['cardorder'] = True
         if i % 5 == 1:
             adeck.irrelevant_keywords(d, rng)      # VOL=, NONU=, TMP=, UNC:N= ... on the cell cards
         d['pts'] = adeck.grid_points(rng, npts)
